@@ -1,7 +1,565 @@
 package main
 
+import (
+	"fmt"
+	"go/token"
+	"go/types"
+	"sort"
+	"strings"
+
+	"golang.org/x/tools/go/ssa"
+)
+
 func init() {
-	register(&Property{ID: "C01", Explanation: "stub", Rules: []Rule{
-		a1Rule(1, "in_toto.InTotoVerify", "in_toto.InTotoVerifyWithDirectory", "in_toto.VerifyLayoutSignatures"),
-	}})
+	register(&Property{ID: "C01",
+		Explanation: "Decides structural clauses of 'only an authentically signed layout is enforced': (R-C01-1) in both entry points every call that consumes the layout/keys or can reach link loading or command execution, and every success return, lies where VerifyLayoutSignatures(env, keys) on the unmodified parameters is known to have returned nil; (R-C01-2) every Layout value passed on derives from a comma-ok assertion of GetPayload() of that same env; (R-C01-3) the guard rejects an empty key set, ranges over all keys, fails on any VerifySignature error and succeeds only after loop exhaustion; (R-C01-4) per Metadata implementation the verified bytes are the bytes of the enforced payload, and only reviewed writers store Envelope fields; (R-C01-5) payload decoding is strict (DisallowUnknownFields before Decode, no json.Unmarshal into Link/Layout); (A1) no error dropped on these paths; (R-C10-2) no write through the caller's layout.",
+		NotDecided:  []string{"soundness of RSA-PSS/ECDSA/Ed25519 verification and of canonical JSON (trusted)", "field-by-field alteration detection (follows from the crypto)", "DSSE multi-signature corner cases inside dsse.EnvelopeVerifier.Verify"},
+		Rules: []Rule{
+			{ID: "R-C01-1", Doc: "must-pass-through: layout-trusting calls and success returns are dominated by ok(VerifyLayoutSignatures(env, keys))", Min: 24, Run: ruleC01_1},
+			{ID: "R-C01-2", Doc: "enforced Layout derives from GetPayload() of the verified Metadata parameter via comma-ok assertion", Min: 20, Run: ruleC01_2},
+			{ID: "R-C01-3", Doc: "shape of the signature guard: non-empty key set, all keys, errors fail, success only after loop exhaustion", Min: 4, Run: ruleC01_3},
+			{ID: "R-C01-4", Doc: "signature is bound to the enforced bytes, per Metadata implementation; Envelope field writers", Min: 10, Run: ruleC01_4},
+			{ID: "R-C01-5", Doc: "strict payload decoding", Min: 3, Run: ruleC01_5},
+			a1Rule(30, "in_toto.InTotoVerify", "in_toto.InTotoVerifyWithDirectory", "in_toto.VerifyLayoutSignatures",
+				"(*in_toto.Metablock).VerifySignature", "(*in_toto.Envelope).VerifySignature", "in_toto.loadEnvelope", "in_toto.loadPayload",
+				"(*in_toto.Metablock).GetSignableRepresentation", "in_toto.getSignerVerifierFromKey"),
+			ruleC10_2(),
+		}})
+}
+
+func ruleC01_1(c *Ctx) {
+	const R = "R-C01-1"
+	eps := c.entryPoints()
+	if len(eps) < 2 {
+		c.bad(R, "in_toto", "entry points", 0, fmt.Sprintf("expected >= 2 verification entry points (Metadata, map[string]Key, ...) (Metadata, error); found %d", len(eps)))
+	}
+	for _, e := range eps {
+		fn := fname(e.f)
+		if e.guard == nil {
+			c.bad(R, fn, "guard call", e.f.Pos(), "no call of a (Metadata, map[string]Key) error function on the unmodified parameters (layout signature check missing or applied to other values)")
+			continue
+		}
+		c.ok(R, fn, "guard call "+fname(e.guardFn), e.guard.Pos(), "called with parameters "+e.env.Name()+", "+e.keys.Name())
+		for _, s := range c.trustingCalls(e) {
+			c.check(c.okCallAt(e.guard, s.Block()), R, fn, "sink call "+calleeName(s), s.Pos(),
+				"dominated by nil-error edge of "+fname(e.guardFn),
+				"call is reachable without a successful "+fname(e.guardFn)+"(env, keys): the layout / keys / links are used before the layout signature is verified")
+		}
+		for _, r := range c.nilErrReturns(e.f) {
+			c.check(c.okCallAt(e.guard, r.Block()), R, fn, "success return", instrPos(r),
+				"dominated by nil-error edge of "+fname(e.guardFn),
+				"a return with possibly nil error is reachable without a successful "+fname(e.guardFn)+"(env, keys)")
+		}
+	}
+}
+
+func ruleC01_2(c *Ctx) {
+	const R = "R-C01-2"
+	for _, e := range c.entryPoints() {
+		fn := fname(e.f)
+		n := 0
+		for _, call := range allCalls(e.f) {
+			for i, a := range callArgs(call) {
+				if !isLayoutType(a.Type()) {
+					continue
+				}
+				n++
+				kind, detail := c.layoutValue(e, a, call, 0)
+				c.check(kind != "", R, fn, fmt.Sprintf("layout argument %d of %s", i, calleeName(call)), call.Pos(), kind+": "+detail,
+					"the Layout passed here is not the payload of the verified Metadata parameter: "+detail)
+			}
+		}
+		// the comma-ok assertion must fail verification when the payload is not a Layout
+		for _, b := range e.f.Blocks {
+			for _, in := range b.Instrs {
+				ta, ok := in.(*ssa.TypeAssert)
+				if !ok || typeStr(ta.AssertedType) != "in_toto.Layout" {
+					continue
+				}
+				if !ta.CommaOk {
+					c.bad(R, fn, "payload assertion", ta.Pos(), "unchecked assertion to Layout (panics on a link)")
+					continue
+				}
+				okv := extractOf(ta, 1)
+				good := false
+				if okv != nil {
+					for _, cu := range condUsers(okv, false) {
+						fb := cu.If.Block().Succs[1]
+						if cu.Neg {
+							fb = cu.If.Block().Succs[0]
+						}
+						if c.failing(fb) {
+							good = true
+						}
+					}
+				}
+				c.check(good, R, fn, "payload assertion failure branch", ta.Pos(), "!ok side is a failing continuation", "a non-layout payload does not fail verification")
+			}
+		}
+		if n == 0 {
+			c.bad(R, fn, "layout arguments", e.f.Pos(), "no call receives a Layout")
+		}
+	}
+}
+
+func extractOf(tuple ssa.Value, idx int) ssa.Value {
+	if refs := tuple.Referrers(); refs != nil {
+		for _, r := range *refs {
+			if e, ok := r.(*ssa.Extract); ok && e.Index == idx {
+				return e
+			}
+		}
+	}
+	return nil
+}
+
+// evalCmp evaluates `x op k` for an integer x.
+func evalCmp(op token.Token, x, k int64) bool {
+	switch op {
+	case token.LSS:
+		return x < k
+	case token.LEQ:
+		return x <= k
+	case token.GTR:
+		return x > k
+	case token.GEQ:
+		return x >= k
+	case token.EQL:
+		return x == k
+	case token.NEQ:
+		return x != k
+	}
+	return false
+}
+
+func flipOp(op token.Token) token.Token {
+	switch op {
+	case token.LSS:
+		return token.GTR
+	case token.LEQ:
+		return token.GEQ
+	case token.GTR:
+		return token.LSS
+	case token.GEQ:
+		return token.LEQ
+	}
+	return op
+}
+
+// lenCompare finds comparisons `len(X) op const` where X satisfies pred; returns the BinOp normalised as (op, k) with len on the left.
+type lenCmp struct {
+	bo *ssa.BinOp
+	op token.Token
+	k  int64
+}
+
+func lenCompares(f *ssa.Function, pred func(ssa.Value) bool) []lenCmp {
+	var out []lenCmp
+	for _, b := range f.Blocks {
+		for _, in := range b.Instrs {
+			bo, ok := in.(*ssa.BinOp)
+			if !ok {
+				continue
+			}
+			isLen := func(v ssa.Value) bool {
+				call, ok := v.(*ssa.Call)
+				if !ok || calleeName(call) != "builtin:len" {
+					return false
+				}
+				return pred(resolve(call.Call.Args[0], call))
+			}
+			if isLen(bo.X) {
+				if k, ok := constInt(bo.Y); ok {
+					out = append(out, lenCmp{bo, bo.Op, k})
+				}
+			} else if isLen(bo.Y) {
+				if k, ok := constInt(bo.X); ok {
+					out = append(out, lenCmp{bo, flipOp(bo.Op), k})
+				}
+			}
+		}
+	}
+	return out
+}
+
+// branchTaken returns the successor of the If controlled by cond when cond evaluates to val.
+func branchTaken(cu condUse, val bool) *ssa.BasicBlock {
+	if cu.Neg {
+		val = !val
+	}
+	if val {
+		return cu.If.Block().Succs[0]
+	}
+	return cu.If.Block().Succs[1]
+}
+
+func ruleC01_3(c *Ctx) {
+	const R = "R-C01-3"
+	guards := map[*ssa.Function]bool{}
+	for _, e := range c.entryPoints() {
+		if e.guardFn != nil {
+			guards[e.guardFn] = true
+		}
+	}
+	if len(guards) == 0 {
+		c.bad(R, "in_toto", "guard function", 0, "no layout-signature guard function found from the entry points")
+		return
+	}
+	for g := range guards {
+		fn := fname(g)
+		env, keys := g.Params[0], g.Params[1]
+		// (a) empty key set is rejected
+		okA := false
+		for _, lc := range lenCompares(g, func(v ssa.Value) bool { return v == ssa.Value(keys) }) {
+			val := evalCmp(lc.op, 0, lc.k)
+			for _, cu := range condUsers(lc.bo, false) {
+				if c.failing(branchTaken(cu, val)) {
+					okA = true
+				}
+			}
+		}
+		c.check(okA, R, fn, "empty key set", g.Pos(), "a branch on len(keys), evaluated at 0, leads to a failing continuation", "no branch rejects an empty key map: verification without any key would succeed")
+		// (b) range over the whole key map with VerifySignature(env, value)
+		var rng *ssa.Range
+		for _, b := range g.Blocks {
+			for _, in := range b.Instrs {
+				if r, ok := in.(*ssa.Range); ok && r.X == ssa.Value(keys) {
+					rng = r
+				}
+			}
+		}
+		if rng == nil {
+			c.bad(R, fn, "range over keys", g.Pos(), "the key map parameter is not ranged over")
+			continue
+		}
+		c.ok(R, fn, "range over keys", rng.Pos(), "range over parameter "+keys.Name())
+		var next *ssa.Next
+		for _, r := range *rng.Referrers() {
+			if n, ok := r.(*ssa.Next); ok {
+				next = n
+			}
+		}
+		var vs []ssa.CallInstruction
+		for _, call := range allCalls(g) {
+			cc := call.Common()
+			if cc.IsInvoke() && cc.Method.Name() == "VerifySignature" && cc.Value == ssa.Value(env) {
+				if ex, ok := resolve(cc.Args[0], call).(*ssa.Extract); ok && ex.Tuple == ssa.Value(next) && ex.Index == 2 {
+					vs = append(vs, call)
+				}
+			}
+		}
+		if len(vs) == 0 {
+			c.bad(R, fn, "VerifySignature per key", rng.Pos(), "no env.VerifySignature(<range value>) in the loop body")
+			continue
+		}
+		for _, call := range vs {
+			// (c) error fails
+			okC := false
+			if e := errResult(call); e != nil {
+				for _, br := range errBranches(e) {
+					if c.failing(br.NonNil) {
+						okC = true
+					}
+				}
+			}
+			c.check(okC, R, fn, "VerifySignature error fails", call.Pos(), "non-nil side is a failing continuation", "a failed signature verification for one key does not fail the guard")
+		}
+		// (d) success only after loop exhaustion
+		okv := extractOf(next, 0)
+		for _, r := range c.nilErrReturns(g) {
+			c.check(okv != nil && c.condAt(okv, false, r.Block()), R, fn, "success return after loop exhaustion", instrPos(r),
+				"return nil is dominated by the range-done edge (all keys visited)",
+				"a nil-error return is reachable before every key has been checked (\"any key\" instead of \"all keys\")")
+		}
+	}
+}
+
+func ruleC01_4(c *Ctx) {
+	const R = "R-C01-4"
+	// discover the implementations of Metadata
+	sp := c.pkg("in_toto")
+	mdObj := sp.Type("Metadata")
+	if mdObj == nil {
+		c.undecided(R, "in_toto", "Metadata", 0, "interface Metadata not found")
+		return
+	}
+	iface := mdObj.Type().Underlying().(*types.Interface)
+	var impls []string
+	for name, m := range sp.Members {
+		t, ok := m.(*ssa.Type)
+		if !ok {
+			continue
+		}
+		if _, isIface := t.Type().Underlying().(*types.Interface); isIface {
+			continue
+		}
+		if types.Implements(types.NewPointer(t.Type()), iface) || types.Implements(t.Type(), iface) {
+			impls = append(impls, name)
+		}
+	}
+	sort.Strings(impls)
+	for _, impl := range impls {
+		switch impl {
+		case "Metablock":
+			c.c01MetablockBinding(R)
+		case "Envelope":
+			c.c01EnvelopeBinding(R)
+		default:
+			c.undecided(R, "in_toto."+impl, "Metadata implementation", 0, "a new implementation of Metadata has no binding rule instance")
+		}
+	}
+	if len(impls) < 2 {
+		c.bad(R, "in_toto", "Metadata implementations", 0, fmt.Sprintf("expected Metablock and Envelope, found %v", impls))
+	}
+}
+
+func (c *Ctx) c01MetablockBinding(R string) {
+	vs := c.lookup("(*in_toto.Metablock).VerifySignature")
+	gp := c.lookup("(*in_toto.Metablock).GetPayload")
+	gs := c.lookup("(*in_toto.Metablock).GetSignableRepresentation")
+	gk := c.lookup("(*in_toto.Metablock).GetSignatureForKeyID")
+	if vs == nil || gp == nil || gs == nil || gk == nil {
+		c.undecided(R, "(*in_toto.Metablock)", "anchors", 0, "VerifySignature/GetPayload/GetSignableRepresentation/GetSignatureForKeyID not all found")
+		return
+	}
+	fn := fname(vs)
+	// GetPayload returns the Signed field
+	for _, r := range returnsOf(gp) {
+		o := org(r.Results[0])
+		c.check(o == "p0.Signed", R, fname(gp), "returned payload", instrPos(r), "returns receiver.Signed", "GetPayload returns "+o+", not the Signed field that is verified")
+	}
+	// GetSignableRepresentation = cjson.EncodeCanonical(receiver.Signed)
+	n := 0
+	for _, call := range callsIn(gs, "ssl/cjson.EncodeCanonical") {
+		n++
+		o := org(call.Common().Args[0])
+		c.check(o == "p0.Signed", R, fname(gs), "canonicalised value", call.Pos(), "cjson.EncodeCanonical(receiver.Signed)", "canonicalises "+o+" instead of the Signed field")
+		for _, r := range returnsOf(gs) {
+			pc, idx := producer(r.Results[0], r)
+			c.check(pc == call && idx == 0, R, fname(gs), "returned bytes", instrPos(r), "returns the canonical encoding", "returned bytes are not the canonical encoding of Signed: "+org(r.Results[0]))
+		}
+	}
+	if n == 0 {
+		c.bad(R, fname(gs), "canonicalised value", gs.Pos(), "no call of securesystemslib cjson.EncodeCanonical")
+	}
+	// in VerifySignature: verifier.Verify(ctx, data, sig)
+	found := false
+	for _, call := range allCalls(vs) {
+		cc := call.Common()
+		if !cc.IsInvoke() || cc.Method.Name() != "Verify" {
+			continue
+		}
+		found = true
+		// receiver from getSignerVerifierFromKey(key param)
+		kc, ok := isResultOf(cc.Value, call, 0, "in_toto.getSignerVerifierFromKey")
+		c.check(ok && resolve(kc.Common().Args[0], kc) == ssa.Value(vs.Params[1]), R, fn, "verifier", call.Pos(), "verifier built from the key parameter", "verifier is not getSignerVerifierFromKey(key): "+org(cc.Value))
+		dc, ok := isResultOf(cc.Args[1], call, 0, "(*in_toto.Metablock).GetSignableRepresentation")
+		c.check(ok && dc.Common().Args[0] == ssa.Value(vs.Params[0]), R, fn, "verified bytes", call.Pos(), "data = receiver.GetSignableRepresentation()", "verified bytes are "+org(cc.Args[1])+", not the receiver's signable representation")
+		sc, ok := isResultOf(cc.Args[2], call, 0, "encoding/hex.DecodeString")
+		sigOK := false
+		detail := org(cc.Args[2])
+		if ok {
+			so := org(sc.Common().Args[0])
+			detail = so
+			sigOK = so == "(*in_toto.Metablock).GetSignatureForKeyID(p0,p1.KeyID)#0.Sig"
+		}
+		c.check(sigOK, R, fn, "signature bytes", call.Pos(), "sig = hex(receiver.GetSignatureForKeyID(key.KeyID).Sig)", "signature bytes come from "+detail)
+		// success return dominated by ok(Verify)
+		for _, r := range c.nilErrReturns(vs) {
+			c.check(c.okCallAt(call, r.Block()), R, fn, "success return", instrPos(r), "dominated by nil-error edge of Verify", "VerifySignature can return nil without a successful Verify")
+		}
+	}
+	if !found {
+		c.bad(R, fn, "Verify call", vs.Pos(), "no dsse Verifier.Verify invocation")
+	}
+	// GetSignatureForKeyID: every non-error return yields an element of receiver.Signatures whose KeyID equals the parameter
+	for _, r := range c.nilErrReturns(gk) {
+		o := org(r.Results[0])
+		okSel := false
+		for _, b := range gk.Blocks {
+			for _, in := range b.Instrs {
+				bo, ok := in.(*ssa.BinOp)
+				if !ok || bo.Op != token.EQL {
+					continue
+				}
+				x, y := org(bo.X), org(bo.Y)
+				if (x == "p0.Signatures[*].KeyID" && y == "p1") || (y == "p0.Signatures[*].KeyID" && x == "p1") {
+					if c.condAt(bo, true, r.Block()) {
+						okSel = true
+					}
+				}
+			}
+		}
+		c.check(okSel && o == "p0.Signatures[*]", R, fname(gk), "selected signature", instrPos(r), "returns receiver.Signatures[i] under Signatures[i].KeyID == keyID", "returned signature "+o+" is not selected by key id equality")
+	}
+}
+
+func (c *Ctx) c01EnvelopeBinding(R string) {
+	vs := c.lookup("(*in_toto.Envelope).VerifySignature")
+	gp := c.lookup("(*in_toto.Envelope).GetPayload")
+	if vs == nil || gp == nil {
+		c.undecided(R, "(*in_toto.Envelope)", "anchors", 0, "VerifySignature/GetPayload not found")
+		return
+	}
+	fn := fname(vs)
+	for _, r := range returnsOf(gp) {
+		o := org(r.Results[0])
+		c.check(o == "p0.payload", R, fname(gp), "returned payload", instrPos(r), "returns receiver.payload", "GetPayload returns "+o)
+	}
+	found := false
+	for _, call := range callsIn(vs, "(*ssl/dsse.EnvelopeVerifier).Verify") {
+		found = true
+		cc := call.Common()
+		c.check(org(cc.Args[2]) == "p0.envelope", R, fn, "verified envelope", call.Pos(), "Verify(ctx, receiver.envelope)", "verifies "+org(cc.Args[2])+" instead of the receiver's envelope")
+		evc, ok := isResultOf(cc.Args[0], call, 0, "ssl/dsse.NewEnvelopeVerifier")
+		okV := false
+		if ok {
+			// variadic: verifier slice built from getSignerVerifierFromKey(key)
+			okV = derives(evc.Common().Args[0], func(v ssa.Value) bool {
+				k, ok := v.(*ssa.Call)
+				return ok && calleeName(k) == "in_toto.getSignerVerifierFromKey" && resolve(k.Call.Args[0], k) == ssa.Value(vs.Params[1])
+			}, false)
+		}
+		c.check(okV, R, fn, "verifier", call.Pos(), "EnvelopeVerifier built from getSignerVerifierFromKey(key)", "envelope verifier is not built from the key parameter")
+		for _, r := range c.nilErrReturns(vs) {
+			ei := errIndex(vs)
+			direct := false
+			if pc, idx := producer(r.Results[ei], r); pc == call && idx == 1 {
+				direct = true
+			}
+			c.check(direct || c.okCallAt(call, r.Block()), R, fn, "success return", instrPos(r), "returns Verify's error / dominated by its nil edge", "VerifySignature can return nil without a successful Verify")
+		}
+	}
+	if !found {
+		c.bad(R, fn, "Verify call", vs.Pos(), "no dsse EnvelopeVerifier.Verify call")
+	}
+	// writers of Envelope.payload / Envelope.envelope
+	allowed := map[string]bool{"in_toto.loadEnvelope": true, "(*in_toto.Envelope).SetPayload": true, "(*in_toto.Envelope).Sign": true}
+	writers := map[string][]*ssa.Store{}
+	for _, f := range c.srcFuncs("in_toto") {
+		for _, b := range f.Blocks {
+			for _, in := range b.Instrs {
+				st, ok := in.(*ssa.Store)
+				if !ok {
+					continue
+				}
+				fa, ok := st.Addr.(*ssa.FieldAddr)
+				if !ok || typeStr(fa.X.Type()) != "*in_toto.Envelope" {
+					continue
+				}
+				writers[fname(f)] = append(writers[fname(f)], st)
+			}
+		}
+	}
+	var names []string
+	for n := range writers {
+		names = append(names, n)
+	}
+	sort.Strings(names)
+	for _, n := range names {
+		c.check(allowed[n], R, n, "writes Envelope fields", writers[n][0].Pos(), "reviewed writer", "function outside the reviewed writer set {loadEnvelope, SetPayload, Sign} stores to Envelope.payload/envelope: payload and signed bytes can diverge")
+	}
+	// loadEnvelope: payload = strict decode of DecodeB64Payload() of the stored envelope
+	for _, st := range writers["in_toto.loadEnvelope"] {
+		fa := st.Addr.(*ssa.FieldAddr)
+		switch fieldName(fa.X.Type(), fa.Field) {
+		case "envelope":
+			c.check(org(st.Val) == "p0", R, "in_toto.loadEnvelope", "stored envelope", st.Pos(), "the parameter envelope", "stores "+org(st.Val))
+		case "payload":
+			o := org(st.Val)
+			c.check(o == "in_toto.loadPayload((*ssl/dsse.Envelope).DecodeB64Payload(p0)#0)#0", R, "in_toto.loadEnvelope", "stored payload", st.Pos(), "loadPayload(DecodeB64Payload(parameter envelope))", "payload object is "+o+", not the strict decoding of the stored envelope's own payload bytes")
+		}
+	}
+	// SetPayload: payload := p1; envelope.Payload = base64(encode(p1))
+	if sp := c.lookup("(*in_toto.Envelope).SetPayload"); sp != nil {
+		for _, st := range writers[fname(sp)] {
+			fa := st.Addr.(*ssa.FieldAddr)
+			switch fieldName(fa.X.Type(), fa.Field) {
+			case "payload":
+				c.check(resolve(st.Val, st) == ssa.Value(sp.Params[1]), R, fname(sp), "stored payload", st.Pos(), "the payload parameter", "stores "+org(st.Val))
+			case "envelope":
+				okEnc := derives(st.Val, func(v ssa.Value) bool {
+					k, ok := v.(*ssa.Call)
+					if !ok {
+						return false
+					}
+					n := calleeName(k)
+					if n != "ssl/cjson.EncodeCanonical" && n != "encoding/json.Marshal" && n != "encoding/json.MarshalIndent" {
+						return false
+					}
+					return resolve(k.Call.Args[0], k) == ssa.Value(sp.Params[1])
+				}, true)
+				c.check(okEnc, R, fname(sp), "stored envelope", st.Pos(), "new envelope's Payload encodes the payload parameter", "the envelope stored does not encode the object stored as payload")
+			}
+		}
+	}
+	// Sign: never stores payload; the new envelope's body is the old envelope's decoded payload
+	if sg := c.lookup("(*in_toto.Envelope).Sign"); sg != nil {
+		for _, st := range writers[fname(sg)] {
+			fa := st.Addr.(*ssa.FieldAddr)
+			switch fieldName(fa.X.Type(), fa.Field) {
+			case "payload":
+				c.bad(R, fname(sg), "stored payload", st.Pos(), "Sign must not replace the payload object")
+			case "envelope":
+				okBody := derives(st.Val, func(v ssa.Value) bool {
+					k, ok := v.(*ssa.Call)
+					return ok && calleeName(k) == "(*ssl/dsse.Envelope).DecodeB64Payload" && org(k.Call.Args[0]) == "p0.envelope"
+				}, true) || org(st.Val) == "p0.envelope"
+				c.check(okBody, R, fname(sg), "stored envelope", st.Pos(), "signed body is DecodeB64Payload() of the receiver's envelope", "Sign stores an envelope whose body is not the receiver's current payload bytes: "+org(st.Val))
+			}
+		}
+	}
+}
+
+func ruleC01_5(c *Ctx) {
+	const R = "R-C01-5"
+	lp := c.lookup("in_toto.loadPayload")
+	if lp == nil {
+		c.undecided(R, "in_toto.loadPayload", "anchor", 0, "strict payload decoder not found")
+		return
+	}
+	n := 0
+	for _, call := range callsIn(lp, "(*encoding/json.Decoder).Decode") {
+		tgt := typeStr(call.Common().Args[1].Type())
+		if tgt != "*in_toto.Link" && tgt != "*in_toto.Layout" {
+			if mi, ok := call.Common().Args[1].(*ssa.MakeInterface); ok {
+				tgt = typeStr(mi.X.Type())
+			}
+		}
+		if tgt != "*in_toto.Link" && tgt != "*in_toto.Layout" {
+			continue
+		}
+		n++
+		dec := call.Common().Args[0]
+		strict := false
+		for _, d := range callsIn(lp, "(*encoding/json.Decoder).DisallowUnknownFields") {
+			if d.Common().Args[0] == dec && instrDominates(d, call) {
+				strict = true
+			}
+		}
+		c.check(strict, R, fname(lp), "Decode into "+tgt, call.Pos(), "DisallowUnknownFields() on the same decoder dominates Decode", "Decode into "+tgt+" without DisallowUnknownFields on that decoder: unknown fields outside the signed schema are accepted")
+		fromParam := derives(dec, func(v ssa.Value) bool { return v == ssa.Value(lp.Params[0]) }, true)
+		c.check(fromParam, R, fname(lp), "decoder input for "+tgt, call.Pos(), "decoder reads the payload bytes parameter", "decoder does not read the bytes that were inspected for _type")
+	}
+	if n < 2 {
+		c.bad(R, fname(lp), "strict decodes", lp.Pos(), fmt.Sprintf("expected 2 strict Decode calls (Link, Layout), found %d", n))
+	}
+	// no lax decoding into Link/Layout/Metablock anywhere in in_toto
+	lax := 0
+	for _, f := range c.srcFuncs("in_toto") {
+		for _, call := range callsIn(f, "encoding/json.Unmarshal") {
+			a := call.Common().Args[1]
+			if mi, ok := a.(*ssa.MakeInterface); ok {
+				a = mi.X
+			}
+			t := typeStr(a.Type())
+			if strings.Contains(t, "in_toto.Link") || strings.Contains(t, "in_toto.Layout") || t == "*in_toto.Metablock" {
+				lax++
+				c.bad(R, fname(f), "json.Unmarshal into "+t, call.Pos(), "lax decoding into "+t+" bypasses the strict payload decoder")
+			}
+		}
+	}
+	if lax == 0 {
+		c.ok(R, "in_toto", "no lax json.Unmarshal into Link/Layout/Metablock", 0, "scanned all in_toto functions")
+	}
 }
